@@ -18,6 +18,9 @@ pub struct Case {
     pub reopen_every: usize,
     /// reader held open from transaction a to c (0,0 = none)
     pub reader: (usize, usize),
+    /// a reader is open at every writer begin: each transaction a new reader opens, then the previous one closes
+    #[serde(default)]
+    pub handover: bool,
     pub seed: u64,
 }
 
@@ -68,6 +71,24 @@ fn tx_script(kind: &str, rng: &mut Rng, t: usize, tag: &mut u64, ps: u64) -> TxS
                 } else {
                     put(&mut ops, 0, i, 150);
                 }
+            }
+        }
+        "bucket-create-delete-overflow" => {
+            // sub-buckets holding multi-page values: deleting them must return the overflow pages too
+            let del = t % 4;
+            let fill = (t + 2) % 4;
+            ops.push(Op::DeleteB {
+                h: 0,
+                k: K::lit(format!("big{}", del).as_bytes()),
+                how: How::Slice,
+            });
+            ops.push(Op::GetOrCreate {
+                h: 0,
+                k: K::lit(format!("big{}", fill).as_bytes()),
+                how: How::Slice,
+            });
+            for j in 0..4 {
+                put(&mut ops, 1, j, 3 * ps as usize + 100 * (t % 3));
             }
         }
         _ => {
@@ -162,7 +183,7 @@ pub fn run_case(c: &Case, path: &std::path::Path) -> Outcome {
     let ps = c.pagesize;
     let has_reader = c.reader.1 > c.reader.0;
     // with a reader on the same thread the file must not grow: pre-size generously
-    let num_pages = if has_reader { 4 + 40 * c.txs.max(100) } else { 4 };
+    let num_pages = if has_reader { 4 + 40 * c.txs.max(100) } else if c.handover { 4096 } else { 4 };
     let _ = std::fs::remove_file(path);
     let open = |p: &std::path::Path| -> Result<DB, String> {
         OpenOptions::new()
@@ -192,6 +213,23 @@ pub fn run_case(c: &Case, path: &std::path::Path) -> Outcome {
     let r = util::catch(|| -> Result<(), String> {
         let mut db = open(path)?;
         let mut t = 0;
+        if c.handover {
+            // a reader is open at every writer begin, but never for longer than one transaction
+            crate::c03::forbid_grow(true);
+            let mut cur = Some(db.tx(false).map_err(|e| e.to_string())?);
+            while t < c.txs {
+                if !st.step(&db, c, path, t)? {
+                    break;
+                }
+                t += 1;
+                let next = db.tx(false).map_err(|e| e.to_string())?;
+                drop(cur.take());
+                cur = Some(next);
+            }
+            drop(cur);
+            crate::c03::forbid_grow(false);
+            return Ok(());
+        }
         while t < c.txs {
             if has_reader && t == c.reader.0 {
                 let rtx = db.tx(false).map_err(|e| e.to_string())?;
@@ -253,7 +291,8 @@ fn judge(c: &Case, o: &mut Outcome) {
     }
     let l = o.max_live;
     let d = o.max_delta.max(1);
-    let tight = c.kind == "fixed-size-overwrite" || c.kind == "delete-reinsert";
+    let tight = (c.kind == "fixed-size-overwrite" || c.kind == "delete-reinsert") && !c.handover;
+    // hand-over: the pages freed by the previous transaction stay pending one transaction longer
     let bound = if tight { l + 2 * d + 8 } else { 4 * (l + d) + 16 };
     let has_reader = c.reader.1 > c.reader.0;
     let warm = n / 10;
@@ -310,11 +349,18 @@ pub fn cases(ctx: &Ctx) -> Vec<Case> {
     let t = ctx.scale(if ctx.thorough() { 5000 } else { 300 }) as usize;
     let mut v = Vec::new();
     let mut i = 0u64;
+    for kind in ["fixed-size-overwrite", "delete-reinsert", "bucket-create-delete-overflow"] {
+        i += 1;
+        v.push(Case { kind: kind.to_string(), pagesize: 1024, txs: t, reopen_every: 0, reader: (0, 0), handover: kind != "bucket-create-delete-overflow", seed: ctx.seed.wrapping_mul(977).wrapping_add(i) });
+    }
+    i += 1;
+    v.push(Case { kind: "bucket-create-delete-overflow".to_string(), pagesize: 1024, txs: t, reopen_every: 25, reader: (0, 0), handover: false, seed: ctx.seed.wrapping_mul(977).wrapping_add(i) });
     for kind in ["fixed-size-overwrite", "variable-size-overwrite", "delete-reinsert", "bucket-create-delete"] {
         for reopen in [0usize, 25] {
             for reader in [false, true] {
                 i += 1;
                 v.push(Case {
+                    handover: false,
                     kind: kind.to_string(),
                     pagesize: 1024,
                     txs: t,
@@ -334,6 +380,7 @@ pub fn cases(ctx: &Ctx) -> Vec<Case> {
         let more: Vec<Case> = v
             .iter()
             .filter(|c| c.reader == (0, 0))
+            .filter(|c| !c.handover)
             .map(|c| Case { pagesize: 4096, txs: c.txs / 2, ..c.clone() })
             .collect();
         v.extend(more);
@@ -380,8 +427,8 @@ pub fn run(ctx: &Ctx) -> Shard {
         shard.set(
             "runs(kind,reopen,reader,L,D,first->last hwm)",
             format!(
-                "{} ps={} reopen_every={} reader={:?} txs={} L={} D={} hwm {}..{} reused_pages={}",
-                c.kind, c.pagesize, c.reopen_every, c.reader, o.hwm.len(), o.max_live, o.max_delta,
+                "{}{} ps={} reopen_every={} reader={:?} txs={} L={} D={} hwm {}..{} reused_pages={}",
+                c.kind, if c.handover { " +reader-hand-over" } else { "" }, c.pagesize, c.reopen_every, c.reader, o.hwm.len(), o.max_live, o.max_delta,
                 o.hwm.first().cloned().unwrap_or(0), o.hwm.last().cloned().unwrap_or(0), o.reuse
             ),
         );
@@ -396,6 +443,9 @@ pub fn run(ctx: &Ctx) -> Shard {
         }
         if c.reader.1 > c.reader.0 {
             shard.count("runs_with_reader_held", 1);
+        }
+        if c.handover {
+            shard.count("runs_with_reader_hand_over", 1);
         }
     }
     shard
